@@ -243,6 +243,54 @@ func TestCoalescing_FlushOnClose(t *testing.T) {
 	assert.Equal(t, int64(n), received.Load(), "all messages must reach the server by the time Close returns")
 }
 
+// TestCoalescing_FlushOnCloseDrainsEveryBatch covers a close that finds more
+// than one batch buffered: the channel holds up to four batches and all of
+// them must be flushed before Close returns.
+func TestCoalescing_FlushOnCloseDrainsEveryBatch(t *testing.T) {
+	release := make(chan struct{})
+	var received atomic.Int64
+	handler := func(_ context.Context, _ inet.Connection, msg proto.Message) (proto.Message, error) {
+		if req, ok := msg.(*internalpb.RemoteTellRequest); ok {
+			received.Add(int64(len(req.GetRemoteMessages())))
+		}
+		<-release
+		return &internalpb.RemoteTellResponse{}, nil
+	}
+	ps, err := inet.NewProtoServer("127.0.0.1:0", inet.WithProtoHandler("internalpb.RemoteTellRequest", handler))
+	require.NoError(t, err)
+	require.NoError(t, ps.Listen())
+	done := make(chan error, 1)
+	go func() { done <- ps.Serve() }()
+	defer func() { require.NoError(t, ps.Shutdown(time.Second)); <-done }()
+	pause.For(50 * time.Millisecond)
+
+	host, portStr, err := net.SplitHostPort(ps.ListenAddr().String())
+	require.NoError(t, err)
+	port, err := strconv.Atoi(portStr)
+	require.NoError(t, err)
+
+	r := NewClient(
+		WithClientCompression(remote.NoCompression),
+		WithSendCoalescing(4), // buffer of 16: the first RPC blocks, the rest piles up
+	)
+	from := address.New("from", "sys", host, port)
+	to := address.New("to", "sys", host, port)
+	const n = 16
+	for i := range n {
+		require.NoError(t, r.RemoteTell(context.Background(), from, to, durationpb.New(time.Duration(i)*time.Millisecond)))
+	}
+
+	closeDone := make(chan struct{})
+	go func() { r.Close(); close(closeDone) }()
+	close(release)
+	select {
+	case <-closeDone:
+	case <-time.After(3 * time.Second):
+		t.Fatalf("Close did not return within 3s")
+	}
+	assert.Equal(t, int64(n), received.Load(), "every buffered batch must reach the server by the time Close returns")
+}
+
 // TestCoalescing_ErrorHandler routes server errors for a flushed batch to the
 // registered handler rather than the RemoteTell return value.
 func TestCoalescing_ErrorHandler(t *testing.T) {
